@@ -91,13 +91,23 @@ def build_driver():
         return rc == 0 and os.path.exists(drv), out
 
 
+HOOKS = {'ok': True, 'note': ''}
+HOOKED_OPS = ('step', 'sigops', 'rlines')
+
+
 def build_harness():
     """Always rebuilt: /repo's working tree may have changed."""
     with Lock('harness'):
         shutil.copyfile(os.path.join(REPO, 'go.sum'), os.path.join(HARNESS, 'go.sum'))
         rc, out = run(['go', 'build', '-tags', 'verif', '-o', os.path.join(BUILD, 'vh'), './cmd/vh'], cwd=HARNESS, env=GOENV, timeout=1200)
+        HOOKS['ok'], HOOKS['note'] = True, ''
         if rc != 0:
-            return False, out
+            # /repo/stack/verif_hooks.go (tag verif) may no longer compile against a changed tree: fall back to the
+            # public-API harness; the hooked ops are then reported as a correspondence that no longer checks
+            rc1, out1 = run(['go', 'build', '-o', os.path.join(BUILD, 'vh'), './cmd/vh'], cwd=HARNESS, env=GOENV, timeout=1200)
+            if rc1 != 0:
+                return False, out + out1
+            HOOKS['ok'], HOOKS['note'] = False, 'the hooks (stack/verif_hooks.go, tag verif) no longer compile against the tree: ' + out.strip()[-400:]
         rc2, out2 = run(['go', 'build', '-o', os.path.join(BUILD, 'pp'), './cmd/pp'], cwd=REPO, env=GOENV, timeout=1200)
         return rc2 == 0, out + out2
 
@@ -362,6 +372,10 @@ def main():
         extra = opspec[3] if len(opspec) > 3 else ()
         n = min(nt, 12 * nq) if tier == 'thorough' else nq   # thorough: ~12x the quick volume (10-20 min per property)
         t1 = time.time()
+        if op in HOOKED_OPS and not HOOKS['ok']:
+            corr_only.append((op, 'hooks-unavailable', [], ['corr:hooks-unavailable'], HOOKS['note']))
+            op_stats.append({'op': op, 'cases': 0, 'relevant_failures': 1, 'wall_s': 0, 'note': HOOKS['note']})
+            continue
         cases, results = run_op(op, n, seed, tier, extra)
         total += len(results)
         nfail = 0
@@ -390,7 +404,7 @@ def main():
         dur = '20s' if tier == 'thorough' else '2s'
         t1 = time.time()
         try:
-            p = subprocess.run(['go', 'run', '-race', '-tags', 'verif', './cmd/racedrv', dur], cwd=HARNESS, env=dict(GOENV, CGO_ENABLED='1'),
+            p = subprocess.run(['go', 'run', '-race'] + (['-tags', 'verif'] if HOOKS['ok'] else []) + ['./cmd/racedrv', dur], cwd=HARNESS, env=dict(GOENV, CGO_ENABLED='1'),
                                stdout=subprocess.PIPE, stderr=subprocess.STDOUT, text=True, timeout=900)
             out = p.stdout
             race_info = {'duration': dur, 'exit': p.returncode, 'data_race_reported': 'DATA RACE' in out, 'results_differ': 'results-differ' in out,
@@ -422,6 +436,8 @@ def main():
         if corr_only:
             for s2 in range(seed + 1000, seed + 1000 + spec.get('search_rounds', 1)):
                 for opspec in spec['ops']:
+                    if opspec[0] in HOOKED_OPS and not HOOKS['ok']:
+                        continue
                     cases, results = run_op(opspec[0], opspec[1] * 2, s2, tier, opspec[3] if len(opspec) > 3 else ())
                     for cid, (status, flags, tags, detail) in results.items():
                         rel = relevant(flags, spec)
